@@ -129,6 +129,16 @@ def bounding_defs(block, pname, mname, out):
     return out
 
 
+def count_sub_blocks(block):
+    n = 1 if getattr(block, "subcircuit", False) else 0
+    for s in block.statements:
+        if isinstance(s, impl.BlockStatement):
+            n += count_sub_blocks(s)
+        elif isinstance(s, impl.LoopStatement):
+            n += count_sub_blocks(s.statements)
+    return n
+
+
 def run_summary(c, budget):
     numpy.random.seed(12345)
     try:
@@ -169,7 +179,7 @@ class C09(Check):
     rule = (
         "tree-exhaustive placements of subcircuit blocks (count none/2/let), explicit prepare/measure sections, "
         "calls of a macro containing a subcircuit and subcircuits containing a loop, in seq blocks and loops "
-        "(0,1,2,let), <= N nodes; x 4 native-gate situations for the structural clause; non-trivial = at least one "
+        "(0,1,2,let), <= N nodes; x 5 native-gate situations for the structural clause; non-trivial = at least one "
         "subcircuit block inside a loop or next to an explicit section; distinct by canonical text"
     )
     assumptions = (
@@ -229,14 +239,18 @@ class C09(Check):
             ctx.outcome("model-invalid:" + e.reason)
             return
         ng = gates.native_gates()
-        # ---------------- structural, four native situations
+        # ---------------- structural, five native situations
         custom_p = impl.GateDefinition("prep2")
         custom_m = impl.GateDefinition("meas2")
+        std_p = impl.GateDefinition("prepare_all")
+        std_m = impl.GateDefinition("measure_all")
         situations = (
             ("native", dict(inject_pulses=ng), {}, "prepare_all", "measure_all"),
             ("absent", {}, {}, "prepare_all", "measure_all"),
             ("by-name", dict(inject_pulses=ng), dict(prepare_def="measure_all", measure_def="prepare_all"), "measure_all", "prepare_all"),
             ("by-def", dict(inject_pulses=ng), dict(prepare_def=custom_p, measure_def=custom_m), "prep2", "meas2"),
+            # the caller's definitions carry the standard names: they are the caller's objects all the same
+            ("by-def-std", dict(inject_pulses=ng), dict(prepare_def=std_p, measure_def=std_m), "prepare_all", "measure_all"),
         )
         for label, pkw, ekw, pname, mname in situations:
             ctx.trace()
@@ -264,6 +278,16 @@ class C09(Check):
             elif label == "by-def":
                 # explicit prepare_all / measure_all sections keep their own definitions
                 bad = [d for d in defs if d.name in ("prep2", "meas2") and d is not custom_p and d is not custom_m]
+            elif label == "by-def-std":
+                # every subcircuit block of the input (body and macro bodies) contributes one statement with the
+                # caller's prepare and one with the caller's measure definition; written prepare_all / measure_all
+                # statements keep the native ones
+                nblocks = count_sub_blocks(c.body) + sum(count_sub_blocks(m.body) for m in c.macros.values())
+                np_, nm_ = sum(1 for d in defs if d is std_p), sum(1 for d in defs if d is std_m)
+                bad = [d for d in defs if d is not std_p and d is not std_m and d is not ng.get(d.name)]
+                if not bad and (np_, nm_) != (nblocks, nblocks):
+                    bad = ["%d subcircuit block(s), %d statement(s) with the caller's prepare and %d with the caller's measure definition"
+                           % (nblocks, np_, nm_)]
             else:
                 bad = []
             if bad:
